@@ -93,8 +93,9 @@ type Evaluator struct {
 // and calls come from the hooks, a Phi takes the value flowing in over the
 // edges that are not back edges (its value on first entry to the loop).
 func (e *Evaluator) ValueAtEntry(v ssa.Value) V {
+	old := e.entryPhi
 	e.entryPhi = true
-	defer func() { e.entryPhi = false }()
+	defer func() { e.entryPhi = old }()
 	fr := &frame{vals: map[ssa.Value]V{}, mem: map[ssa.Value]V{}}
 	return e.val(fr, v)
 }
